@@ -180,6 +180,8 @@ def impl_monitor(extra):
         if len(t) >= 3 and t[0] == "monitor":
             if t[1] == "first":
                 r["first"] = " ".join(t[2:])
+            elif t[1] == "bufobjs":
+                r["bufobjs"] = t[2:]
             elif t[1] == "retired":
                 r["retired"] = int(t[2]); r["disposed_at_destruct"] = int(t[4])
             else:
